@@ -29,6 +29,8 @@ type c09KillCase struct {
 	HoldMs    int  `json:"then_wait_ms"`
 	Fifo      bool `json:"output_is_a_stalled_fifo,omitempty"`             // the reader of the output does not read until the kill
 	StuckAt   int  `json:"request_that_never_gets_its_response,omitempty"` // the n-th request (1-based) is held by the server until after the kill
+	IntAfter  int  `json:"interrupt_after_responses,omitempty"`            // SIGINT once this many responses have completed; the hits in flight then finish, the held one keeps the attack alive
+	DelayMs   int  `json:"server_delay_ms,omitempty"`
 }
 
 // c09KillWorkers is the -max-workers of the killed attacks. At any instant at
@@ -57,6 +59,9 @@ func c09KillOnce(c *Ctx, dir string, cs c09KillCase) (obs c09KillObs, err error)
 	srv := httptest.NewServer(http.HandlerFunc(func(w http.ResponseWriter, r *http.Request) {
 		if n := arrived.Add(1); cs.StuckAt > 0 && n == int64(cs.StuckAt) {
 			<-release // a slow hit: still in flight when the attack is killed
+		}
+		if cs.DelayMs > 0 {
+			time.Sleep(time.Duration(cs.DelayMs) * time.Millisecond)
 		}
 		fmt.Fprint(w, "ok")
 		mu.Lock()
@@ -120,6 +125,21 @@ func c09KillOnce(c *Ctx, dir string, cs c09KillCase) (obs c09KillObs, err error)
 			}
 			time.Sleep(5 * time.Millisecond)
 		}
+	} else if cs.IntAfter > 0 {
+		for served.Load() < int64(cs.IntAfter) && time.Now().Before(deadline) {
+			time.Sleep(time.Millisecond)
+		}
+		// the first interrupt: no new hits, the ones in flight still deliver their results
+		_ = cmd.Process.Signal(syscall.SIGINT)
+		last, since := int64(-1), time.Now()
+		for time.Now().Before(deadline) {
+			if n := served.Load(); n != last {
+				last, since = n, time.Now()
+			} else if time.Since(since) > time.Duration(cs.DelayMs+300)*time.Millisecond {
+				break
+			}
+			time.Sleep(5 * time.Millisecond)
+		}
 	} else {
 		for served.Load() < int64(cs.AfterResp) && time.Now().Before(deadline) {
 			time.Sleep(time.Millisecond)
@@ -131,7 +151,7 @@ func c09KillOnce(c *Ctx, dir string, cs c09KillCase) (obs c09KillObs, err error)
 	_ = cmd.Process.Signal(syscall.SIGKILL)
 	_ = cmd.Wait()
 	unstick()
-	if !cs.Fifo && obs.ServedAtMark < int64(cs.AfterResp) {
+	if !cs.Fifo && obs.ServedAtMark < int64(max(cs.AfterResp, cs.IntAfter)) {
 		return obs, fmt.Errorf("only %d responses within the watchdog: %s", obs.ServedAtMark, tail(stderr.String(), 300))
 	}
 	var b []byte
@@ -176,8 +196,11 @@ func c09AttackKill(c *Ctx, run *ev.Run) {
 		return
 	}
 	defer os.RemoveAll(dir)
-	cases := []c09KillCase{{10, 8, 1200, false, 0}, {300, 200, 300, false, 4}, {1000, 1500, 300, false, 0}, {2000, 0, 0, true, 0}, {25, 10, 1000, false, 0}, {400, 600, 400, false, 0}, {500, 0, 50, true, 0}, {2000, 4000, 200, false, 7}, {50, 20, 1000, false, 2}}
-	n := c.Pick(4, len(cases))
+	cases := []c09KillCase{{Rate: 10, AfterResp: 8, HoldMs: 1200}, {Rate: 300, AfterResp: 200, HoldMs: 300, StuckAt: 4}, {Rate: 1000, AfterResp: 1500, HoldMs: 300}, {Rate: 2000, Fifo: true},
+		{Rate: 200, HoldMs: 500, StuckAt: 3, IntAfter: 60, DelayMs: 120},
+		{Rate: 25, AfterResp: 10, HoldMs: 1000}, {Rate: 400, AfterResp: 600, HoldMs: 400}, {Rate: 500, HoldMs: 50, Fifo: true}, {Rate: 2000, AfterResp: 4000, HoldMs: 200, StuckAt: 7}, {Rate: 50, AfterResp: 20, HoldMs: 1000, StuckAt: 2},
+		{Rate: 1000, HoldMs: 400, StuckAt: 10, IntAfter: 500, DelayMs: 40}}
+	n := c.Pick(5, len(cases))
 	for i := 0; i < n; i++ {
 		cs := cases[i]
 		// a verdict needs the same failure in 2 of up to 3 runs: the instant of a
@@ -225,7 +248,10 @@ func c09AttackKill(c *Ctx, run *ev.Run) {
 		if missing >= 2 {
 			run.Violate("C09/attack-killed/results-not-written-as-they-arrive", fmt.Sprintf("vegeta attack -rate %d: %d responses had completed %d ms before the kill, the results file (%d bytes) holds %d whole records", cs.Rate, last.ServedAtMark, cs.HoldMs, last.FileBytes, last.Whole), det)
 		}
-		run.Distinct(fmt.Sprintf("attack-kill:%d:%d:%v:%d", cs.Rate, cs.AfterResp, cs.Fifo, cs.StuckAt))
+		run.Distinct(fmt.Sprintf("attack-kill:%d:%d:%v:%d:%d", cs.Rate, cs.AfterResp, cs.Fifo, cs.StuckAt, cs.IntAfter))
+		if cs.IntAfter > 0 {
+			run.Count("attack_kill_runs_after_an_interrupt", 1)
+		}
 		if cs.StuckAt > 0 {
 			run.Count("attack_kill_runs_with_a_hit_still_in_flight", 1)
 		}
